@@ -171,6 +171,18 @@ def check_accumulators(P, R):
             # counts weight A1
             cnt = any(any(a.endswith(".n") or "n_acc" in a for a in x[1]) for x in t1)
             R.check(cnt, "POL.A1", f.key, "A1 weighted by the counts", "", "A1 is not weighted by the zeroth-order statistics", r.lineno)
+            # both accumulators are sums over classes / sessions: every in-place update of a returned accumulator adds
+            accs = {x.id for x in (a1, a2) if isinstance(x, ast.Name)}
+            n_upd = 0
+            for st in walk_no_nested(f.node):
+                if isinstance(st, ast.AugAssign):
+                    b = st.target
+                    while isinstance(b, ast.Subscript):
+                        b = b.value
+                    if isinstance(b, ast.Name) and b.id in accs:
+                        n_upd += 1
+                        R.check(isinstance(st.op, ast.Add), "ACC.sum", f.key, src(st)[:60], "accumulated with +=", f"the accumulator {b.id} is updated with `{type(st.op).__name__}` instead of being summed over the classes", st.lineno)
+            R.check(n_upd >= 2 or not accs, "ACC.sum", f.key, f"{n_upd} in-place accumulations into {sorted(accs)}", "", "the returned accumulators are no longer accumulated over the classes", r.lineno)
 
 
 PHASE_DEPS = {
@@ -229,3 +241,5 @@ def run(P, R, tier):
             for stmts, nm in ((arm.body, "Dask"), (arm.orelse, "in-memory")):
                 calls = [src(P.peel_call(c, f)[1]).split(".")[-1] for s in stmts for c in walk_no_nested(s) if isinstance(c, ast.Call)]
                 R.check(calls.count(es) == 1 and calls.count(ms) == 1, "SEQ.pass", key, f"{nm} arm of the {ms[-1].upper()} phase: one {es}, one {ms}", "", f"a pass of the {ms[-1].upper()} phase does not consist of exactly one {es} followed by one {ms} ({calls.count(es)} / {calls.count(ms)})", arm.lineno)
+    from ..engines import idx as _idx
+    _idx.check_class_select(P, R, "factor_analysis:FactorAnalysisBase._get_statistics_by_class_id")
